@@ -100,6 +100,9 @@ type pipe struct {
 	partial     []int
 	partialLeft int
 	partialOn   bool
+	// eofWithData: the Read that returns the last bytes of a closed pipe
+	// returns io.EOF with them.
+	eofWithData bool
 }
 
 var errTransportBroke = errors.New("write: connection reset by peer")
@@ -191,6 +194,11 @@ func (p *pipe) Read(b []byte) (int, error) {
 		p.chunks = p.chunks[1:]
 	} else {
 		p.chunks[0] = c[n:]
+	}
+	if p.eofWithData && p.closed && len(p.chunks) == 0 {
+		// io.Reader allows the last bytes and the end of the stream to
+		// be reported by the same call
+		return n, io.EOF
 	}
 	return n, nil
 }
